@@ -808,4 +808,258 @@ theorem runBound_min (hinv : TInv k H losers win) (hw : win 0 = (w0 : Int))
 
 end runbound
 
+
+/-! ## playInitialGames -/
+
+section init
+variable (bufs : List Buf) (leaves : List Int)
+
+def leafVal (p : Nat) : Int :=
+  if p - bufs.length < leaves.length then leaves.getD (p - bufs.length) (-1) else -1
+
+/-- ghost: the winner of the subtree at `i`, as `playInitialGames` computes it -/
+def initWin : Nat → Nat → Int
+  | 0, i => if i ≥ bufs.length then leafVal bufs leaves i else -1
+  | f + 1, i =>
+    if i ≥ bufs.length then leafVal bufs leaves i
+    else (playGame bufs (initWin f (2 * i + 1)) (initWin f (2 * i + 2))).2
+
+theorem playInitialGames_fst : ∀ (f i : Nat) (L : List Int),
+    (playInitialGames bufs leaves f i L).1 = initWin bufs leaves f i
+  | 0, i, L => by simp only [playInitialGames, initWin, leafVal]; split <;> rfl
+  | f + 1, i, L => by
+    simp only [playInitialGames, initWin, leafVal]
+    split
+    · rfl
+    · simp only [playInitialGames_fst f]
+
+theorem initWin_succ : ∀ (f p : Nat), bufs.length ≤ p + f →
+    initWin bufs leaves (f + 1) p = initWin bufs leaves f p
+  | 0, p, h => by
+    have : p ≥ bufs.length := by omega
+    simp [initWin, this]
+  | f + 1, p, h => by
+    by_cases hp : p ≥ bufs.length
+    · simp [initWin, hp]
+    · have e1 := initWin_succ f (2 * p + 1) (by omega)
+      have e2 := initWin_succ f (2 * p + 2) (by omega)
+      rw [initWin, if_neg hp, e1, e2]
+      conv => rhs; rw [initWin, if_neg hp]
+
+theorem initWin_add (f p : Nat) (h : bufs.length ≤ p + f) : ∀ d,
+    initWin bufs leaves (f + d) p = initWin bufs leaves f p
+  | 0 => rfl
+  | d + 1 => by
+    rw [← Nat.add_assoc, initWin_succ bufs leaves (f + d) p (by omega)]; exact initWin_add f p h d
+
+theorem initWin_stable {f f' p : Nat} (h : bufs.length ≤ p + f) (h' : bufs.length ≤ p + f') :
+    initWin bufs leaves f p = initWin bufs leaves f' p := by
+  rcases Nat.le_total f f' with hh | hh
+  · obtain ⟨d, rfl⟩ := Nat.exists_eq_add_of_le hh
+    exact (initWin_add bufs leaves f p h d).symm
+  · obtain ⟨d, rfl⟩ := Nat.exists_eq_add_of_le hh
+    exact initWin_add bufs leaves f' p h' d
+
+/-- the canonical winner function of the initial tree -/
+def initW (p : Nat) : Int := initWin bufs leaves bufs.length p
+
+def initG (i : Nat) : Int := (playGame bufs (initW bufs leaves (2 * i + 1)) (initW bufs leaves (2 * i + 2))).1
+
+theorem initW_node {i : Nat} (hi : i < bufs.length) :
+    initW bufs leaves i = (playGame bufs (initW bufs leaves (2 * i + 1)) (initW bufs leaves (2 * i + 2))).2 := by
+  obtain ⟨k', hk'⟩ : ∃ k', bufs.length = k' + 1 := ⟨bufs.length - 1, by omega⟩
+  simp only [initW]
+  rw [hk', initWin, if_neg (by omega)]
+  rw [initWin_stable bufs leaves (f := k') (f' := k' + 1) (p := 2 * i + 1) (by omega) (by omega),
+    initWin_stable bufs leaves (f := k') (f' := k' + 1) (p := 2 * i + 2) (by omega) (by omega)]
+
+theorem getD_set_ne'' (L : List Int) {i o : Nat} (c : Int) (h : i ≠ o) : (L.set o c).getD i (-1) = L.getD i (-1) :=
+  getD_set_ne' L c h
+
+/-- the losers written by `playInitialGames` -/
+theorem playInitialGames_snd : ∀ (f i : Nat) (L : List Int), bufs.length ≤ i + f → L.length = bufs.length →
+    (playInitialGames bufs leaves f i L).2.length = bufs.length ∧
+    (∀ j, L.getD j (-1) = initG bufs leaves j → (playInitialGames bufs leaves f i L).2.getD j (-1) = initG bufs leaves j) ∧
+    (∀ n j, j < bufs.length → up n j = i → (playInitialGames bufs leaves f i L).2.getD j (-1) = initG bufs leaves j)
+  | 0, i, L, h, hL => by
+    have hi : i ≥ bufs.length := by omega
+    simp only [playInitialGames, hi, if_true]
+    refine ⟨hL, fun _ h => h, ?_⟩
+    intro n j hj hn
+    have := up_le n j; omega
+  | f + 1, i, L, h, hL => by
+    simp only [playInitialGames]
+    split
+    · rename_i hi
+      refine ⟨hL, fun _ h => h, ?_⟩
+      intro n j hj hn
+      have := up_le n j; omega
+    · rename_i hi
+      have hi' : i < bufs.length := by omega
+      obtain ⟨a1, a2, a3⟩ := playInitialGames_snd f (2 * i + 1) L (by omega) hL
+      obtain ⟨b1, b2, b3⟩ := playInitialGames_snd f (2 * i + 2) _ (by omega) a1
+      have hg : (playGame bufs (playInitialGames bufs leaves f (2 * i + 1) L).1
+          (playInitialGames bufs leaves f (2 * i + 2) (playInitialGames bufs leaves f (2 * i + 1) L).2).1).1
+          = initG bufs leaves i := by
+        rw [playInitialGames_fst, playInitialGames_fst]
+        simp only [initG, initW]
+        rw [initWin_stable bufs leaves (f := f) (f' := bufs.length) (p := 2 * i + 1) (by omega) (by omega),
+          initWin_stable bufs leaves (f := f) (f' := bufs.length) (p := 2 * i + 2) (by omega) (by omega)]
+      rw [hg]
+      have hset : ∀ (M : List Int), M.length = bufs.length → ∀ j, (j = i ∨ M.getD j (-1) = initG bufs leaves j) →
+          (M.set i (initG bufs leaves i)).getD j (-1) = initG bufs leaves j := by
+        intro M hM j hj
+        by_cases hji : j = i
+        · subst hji; exact getD_set_eq' M _ (by omega)
+        · rw [getD_set_ne' M _ hji]
+          rcases hj with hj | hj
+          · exact absurd hj hji
+          · exact hj
+      refine ⟨by simp [b1], ?_, ?_⟩
+      · intro j hj
+        exact hset _ b1 j (Or.inr (b2 j (a2 j hj)))
+      · intro n
+        induction n with
+        | zero =>
+          intro j hj hn
+          simp only [up] at hn
+          exact hset _ b1 j (Or.inl hn)
+        | succ n ih =>
+          intro j hj hn
+          simp only [up] at hn
+          by_cases hc0 : up n j = 0
+          · have : i = 0 := by rw [← hn, hc0]; rfl
+            exact ih j hj (by rw [hc0, this])
+          · rcases child_cases (show 1 ≤ up n j by omega) with hc | hc
+            · rw [hn] at hc
+              exact hset _ b1 j (Or.inr (b2 j (a3 n j hj hc)))
+            · rw [hn] at hc
+              exact hset _ b1 j (Or.inr (b3 n j hj hc))
+
+end init
+
+section init2
+variable {bufs : List Buf} {leaves : List Int} {H : Heads}
+
+theorem playGame_cases (bufs : List Buf) (a b : Int) :
+    (a < 0 ∧ playGame bufs a b = (a, b)) ∨ (0 ≤ a ∧ b < 0 ∧ playGame bufs a b = (b, a)) ∨
+    (0 ≤ a ∧ 0 ≤ b ∧ (headOf bufs a).key < (headOf bufs b).key ∧ playGame bufs a b = (b, a)) ∨
+    (0 ≤ a ∧ 0 ≤ b ∧ ¬ (headOf bufs a).key < (headOf bufs b).key ∧ playGame bufs a b = (a, b)) := by
+  unfold playGame
+  by_cases ha : a < 0
+  · simp [ha]
+  · by_cases hb : b < 0
+    · simp [ha, hb]; omega
+    · by_cases hc : cmp (headOf bufs a) (headOf bufs b) < 0
+      · have := cmp_lt.mp hc
+        simp only [ha, hb, hc, if_true, if_false]
+        right; right; left; exact ⟨by omega, by omega, this, trivial⟩
+      · have : ¬ (headOf bufs a).key < (headOf bufs b).key := fun h => hc (cmp_lt.mpr h)
+        simp only [ha, hb, hc, if_false]
+        right; right; right; exact ⟨by omega, by omega, this, trivial⟩
+
+/-- what `initialize` passes as leaves: the live inputs -/
+structure LeavesOk (bufs : List Buf) (leaves : List Int) (H : Heads) : Prop where
+  len : leaves.length = bufs.length
+  val : ∀ x, x < bufs.length → leaves.getD x (-1) = if H.alive x = true then (x : Int) else -1
+  key : ∀ x, H.alive x = true → (headOf bufs (x : Int)).key = H.key x
+
+theorem leafVal_eq (hl : LeavesOk bufs leaves H) (p : Nat) (_hp : bufs.length ≤ p) :
+    leafVal bufs leaves p = leafPlayer bufs.length H p := by
+  simp only [leafVal, leafPlayer, hl.len]
+  by_cases h : p - bufs.length < bufs.length
+  · simp only [h, if_true, true_and]; exact hl.val _ h
+  · simp [h]
+
+theorem initW_leaf (hl : LeavesOk bufs leaves H) (p : Nat) (hp : bufs.length ≤ p) :
+    initW bufs leaves p = leafPlayer bufs.length H p := by
+  rw [← leafVal_eq hl p hp]
+  simp only [initW]
+  cases hk : bufs.length with
+  | zero => simp [initWin, hk]
+  | succ k' => rw [hk] at hp; simp [initWin, hk, hp]
+
+theorem initWin_chain (hl : LeavesOk bufs leaves H) : ∀ (f p x : Nat), bufs.length ≤ p + f →
+    initWin bufs leaves f p = (x : Int) →
+    H.alive x = true ∧ x < bufs.length ∧ Chain bufs.length (initW bufs leaves) x p
+  | 0, p, x, h, hx => by
+    have hp : bufs.length ≤ p := by omega
+    have e : initW bufs leaves p = (x : Int) := by
+      rw [← hx]; exact initWin_stable bufs leaves (by omega) (by omega)
+    rw [initW_leaf hl p hp] at e
+    simp only [leafPlayer] at e
+    split at e
+    · rename_i hc
+      have hxe : x = p - bufs.length := by omega
+      refine ⟨hxe ▸ hc.2, hxe ▸ hc.1, 0, by simp only [up]; omega, ?_⟩
+      intro j hj
+      have : j = 0 := by omega
+      subst this
+      simp only [up]
+      have : bufs.length + x = p := by omega
+      rw [this, initW_leaf hl p hp]; simp only [leafPlayer, hc, and_self, if_true]; omega
+    · omega
+  | f + 1, p, x, h, hx => by
+    by_cases hp : bufs.length ≤ p
+    · exact initWin_chain hl 0 p x (by omega) (by
+        rw [← hx]; exact initWin_stable bufs leaves (by omega) (by omega))
+    · have hp' : ¬ p ≥ bufs.length := hp
+      have hx' := hx
+      rw [initWin, if_neg hp'] at hx
+      have hmem : ∃ c, (c = 2 * p + 1 ∨ c = 2 * p + 2) ∧ initWin bufs leaves f c = (x : Int) := by
+        rcases playGame_cases bufs (initWin bufs leaves f (2 * p + 1)) (initWin bufs leaves f (2 * p + 2)) with
+          ⟨_, e⟩ | ⟨_, _, e⟩ | ⟨_, _, _, e⟩ | ⟨_, _, _, e⟩ <;> rw [e] at hx
+        · exact ⟨_, Or.inr rfl, hx⟩
+        · exact ⟨_, Or.inl rfl, hx⟩
+        · exact ⟨_, Or.inl rfl, hx⟩
+        · exact ⟨_, Or.inr rfl, hx⟩
+      obtain ⟨c, hc, hcx⟩ := hmem
+      obtain ⟨a1, a2, n, hn1, hn2⟩ := initWin_chain hl f c x (by omega) hcx
+      have hpar : par c = p := by simp only [par]; omega
+      refine ⟨a1, a2, n + 1, by simp only [up, hn1, hpar], ?_⟩
+      intro j hj
+      rcases Nat.lt_or_ge j (n + 1) with h1 | h1
+      · exact hn2 j (by omega)
+      · have : j = n + 1 := by omega
+        subst this
+        simp only [up, hn1, hpar, initW]
+        rw [← hx']; exact initWin_stable bufs leaves (by omega) (by omega)
+
+/-- `init_inv`: `playInitialGames` builds a valid tree -/
+theorem init_inv (hl : LeavesOk bufs leaves H) (L : List Int) (hL : L.length = bufs.length) :
+    TInv bufs.length H (playInitialGames bufs leaves bufs.length 0 L).2 (initW bufs leaves) ∧
+    initW bufs leaves 0 = (playInitialGames bufs leaves bufs.length 0 L).1 := by
+  obtain ⟨s1, _, s3⟩ := playInitialGames_snd bufs leaves bufs.length 0 L (by omega) hL
+  have hchain : ∀ p (x : Nat), initW bufs leaves p = (x : Int) →
+      H.alive x = true ∧ x < bufs.length ∧ Chain bufs.length (initW bufs leaves) x p :=
+    fun p x hx => initWin_chain hl bufs.length p x (by omega) hx
+  refine ⟨⟨s1, initW_leaf hl, ?_, hchain⟩, (playInitialGames_fst bufs leaves _ _ _).symm⟩
+  intro i hi
+  rw [s3 i i hi (up_zero_of_le i i (Nat.le_refl _)), initW_node bufs leaves hi]
+  simp only [initG]
+  generalize ha : initW bufs leaves (2 * i + 1) = a
+  generalize hb : initW bufs leaves (2 * i + 2) = b
+  have halive : ∀ (v : Int) (p : Nat), initW bufs leaves p = v → 0 ≤ v →
+      ∃ x : Nat, v = (x : Int) ∧ H.alive x = true := by
+    intro v p hv h0
+    obtain ⟨x, hx⟩ : ∃ x : Nat, v = (x : Int) := ⟨v.toNat, by omega⟩
+    exact ⟨x, hx, (hchain p x (by rw [hv, hx])).1⟩
+  rcases playGame_cases bufs a b with ⟨h1, e⟩ | ⟨h1, h2, e⟩ | ⟨h1, h2, h3, e⟩ | ⟨h1, h2, h3, e⟩ <;> rw [e]
+  · exact ⟨Or.inl ⟨rfl, rfl⟩, by rw [pk_neg h1]; exact leInf_none _⟩
+  · exact ⟨Or.inr ⟨rfl, rfl⟩, by rw [pk_neg h2]; exact leInf_none _⟩
+  · obtain ⟨x, hx, hax⟩ := halive a _ ha h1
+    obtain ⟨y, hy, hay⟩ := halive b _ hb h2
+    refine ⟨Or.inr ⟨rfl, rfl⟩, ?_⟩
+    rw [hx, hy] at h3 ⊢
+    rw [hl.key x hax, hl.key y hay] at h3
+    rw [pk_nat hax, pk_nat hay, leInf_some]; omega
+  · obtain ⟨x, hx, hax⟩ := halive a _ ha h1
+    obtain ⟨y, hy, hay⟩ := halive b _ hb h2
+    refine ⟨Or.inl ⟨rfl, rfl⟩, ?_⟩
+    rw [hx, hy] at h3 ⊢
+    rw [hl.key x hax, hl.key y hay] at h3
+    rw [pk_nat hax, pk_nat hay, leInf_some]; omega
+
+end init2
+
 end PqModel.Merge
